@@ -4,6 +4,8 @@ CONSTANTS
   Types = {"P", "D", "VM", "VR"}
   TypesOf <- MC_TypesOf
   Loads <- MC_Loads
+  Partner <- MC_Partner
+  TolerantOpts = {FALSE}
   Streams = {4}
   MaxCalls = 3
   ObjCacheOpts = {TRUE, FALSE}
